@@ -113,6 +113,150 @@ Definition psv_part_check (d : list Z) : option psv_info * option string :=
   else if negb ((entry_off <? strsz) && nul_terminated_at strtab entry_off) then (Some info, Some ("PSV0 entry function name offset outside the string table"%string))
   else (Some info, psv_resources_ok d (Z.to_nat nres) (p1 + 4)).
 
+(* ---- consistency of the signature elements PSV0 stores, with PSV0's own vector counts and with
+   the ISG1 / OSG1 / PSG1 parts (DxilPipelineStateValidation.h PSVSignatureElement0 and
+   DxilSignature::NumVectorsUsed: the vector count of a signature is the maximum of
+   StartRow + Rows over its allocated elements of the stream) ---- *)
+
+Record psv_elem := mkPE { pe_semoff : Z; pe_semidx : Z; pe_rows : Z; pe_start_row : Z; pe_cols : Z; pe_start_col : Z;
+                          pe_alloc : bool; pe_kind : Z; pe_ctype : Z; pe_stream : Z }.
+
+(* one 16-byte PSVSignatureElement0 at base; semtab = offset of the first semantic index *)
+Definition psv_elem_at (d : list Z) (semtab : Z) (base : Z) : psv_elem :=
+  let cs := u8_at d (base + 10) in
+  mkPE (u32_at d (base + 4)) (u32_at d (semtab + 4 * u32_at d (base + 4)))
+       (u8_at d (base + 8)) (u8_at d (base + 9)) (cs mod 16) ((cs / 16) mod 4) (Z.testbit cs 6)
+       (u8_at d (base + 11)) (u8_at d (base + 12)) ((u8_at d (base + 14) / 16) mod 4).
+
+Fixpoint psv_elems (d : list Z) (semtab : Z) (n : nat) (base : Z) : list psv_elem :=
+  match n with
+  | O => []
+  | S n' => psv_elem_at d semtab base :: psv_elems d semtab n' (base + 16)
+  end.
+
+(* offsets inside PSV0, computed as psv_part_check walks the part *)
+Definition psv_semcount_offset (d : list Z) : Z :=
+  let nres := u32_at d 56 in
+  let p2 := if 0 <? nres then 60 + 4 + 24 * nres else 60 in
+  p2 + 4 + u32_at d p2.
+Definition psv_semtab_offset (d : list Z) : Z := psv_semcount_offset d + 4.
+Definition psv_sigelem_offset (d : list Z) : Z :=
+  psv_semcount_offset d + 4 + 4 * u32_at d (psv_semcount_offset d) + 4.
+
+Record sig_elem := mkSE { se_stream : Z; se_semidx : Z; se_sysval : Z; se_ctype : Z; se_reg : Z; se_mask : Z }.
+
+Definition sig_elem_at (d : list Z) (base : Z) : sig_elem :=
+  mkSE (u32_at d base) (u32_at d (base + 8)) (u32_at d (base + 12)) (u32_at d (base + 16)) (u32_at d (base + 20)) (u8_at d (base + 24)).
+
+Fixpoint sig_elems (d : list Z) (n : nat) (base : Z) : list sig_elem :=
+  match n with
+  | O => []
+  | S n' => sig_elem_at d base :: sig_elems d n' (base + 32)
+  end.
+
+Definition sig_part_elems (d : list Z) : list sig_elem := sig_elems d (Z.to_nat (u32_at d 0)) 8.
+
+(* what the two encodings of one element must agree on: stream, register row, component lanes,
+   component type, semantic index.  An element that is not allocated (SV_Depth, SV_Coverage, ...)
+   has register 0xFFFFFFFF in the signature part and its lanes start at column 0. *)
+Definition sig_key := (Z * Z * Z * Z * Z)%type.
+
+Definition pe_lanes (e : psv_elem) : Z := ((2 ^ pe_cols e - 1) * 2 ^ pe_start_col e) mod 16.
+
+Definition pe_key (e : psv_elem) : sig_key :=
+  if pe_alloc e then (pe_stream e, pe_start_row e, pe_lanes e, pe_ctype e, pe_semidx e)
+  else (pe_stream e, 4294967295, (2 ^ pe_cols e - 1) mod 16, pe_ctype e, pe_semidx e).
+
+Definition se_key (e : sig_elem) : sig_key := (se_stream e, se_reg e, se_mask e, se_ctype e, se_semidx e).
+
+Definition key_eqb (a b : sig_key) : bool :=
+  let '(a1, a2, a3, a4, a5) := a in let '(b1, b2, b3, b4, b5) := b in
+  (a1 =? b1) && (a2 =? b2) && (a3 =? b3) && (a4 =? b4) && (a5 =? b5).
+
+Fixpoint remove_key (k : sig_key) (l : list sig_key) : option (list sig_key) :=
+  match l with
+  | [] => None
+  | x :: l' => if key_eqb k x then Some l'
+               else match remove_key k l' with Some r => Some (x :: r) | None => None end
+  end.
+
+(* a is a rearrangement of b *)
+Fixpoint perm_check (a b : list sig_key) : bool :=
+  match a with
+  | [] => match b with [] => true | _ => false end
+  | k :: a' => match remove_key k b with Some b' => perm_check a' b' | None => false end
+  end.
+
+(* first row above an allocated element; 0 for an element that takes no row *)
+Definition pe_top (e : psv_elem) : Z := if pe_alloc e then pe_start_row e + pe_rows e else 0.
+
+Definition max_top (l : list psv_elem) : Z := fold_right (fun e acc => Z.max (pe_top e) acc) 0 l.
+
+Definition on_stream (s : Z) (l : list psv_elem) : list psv_elem := filter (fun e => pe_stream e =? s) l.
+
+(* an element lies inside the 4-lane rows it claims, and its semantic indices inside the table *)
+Definition pe_fits (nsem : Z) (e : psv_elem) : bool :=
+  (1 <=? pe_rows e) && (1 <=? pe_cols e) && (pe_cols e <=? 4) && (pe_start_col e + pe_cols e <=? 4) &&
+  (pe_semoff e + pe_rows e <=? nsem).
+
+(* two allocated elements of one stream claim the same lane of the same row *)
+Definition pe_overlap (a b : psv_elem) : bool :=
+  pe_alloc a && pe_alloc b && (pe_stream a =? pe_stream b) &&
+  (pe_start_row a <? pe_start_row b + pe_rows b) && (pe_start_row b <? pe_start_row a + pe_rows a) &&
+  negb (Z.land (pe_lanes a) (pe_lanes b) =? 0).
+
+Fixpoint no_overlap (l : list psv_elem) : bool :=
+  match l with
+  | [] => true
+  | x :: l' => forallb (fun y => negb (pe_overlap x y)) l' && no_overlap l'
+  end.
+
+Definition vectors_ok (vouts : list Z) (outs : list psv_elem) : bool :=
+  forallb (fun p => snd p =? max_top (on_stream (fst p) outs)) (combine [0; 1; 2; 3] vouts).
+
+(* the PSV0 fields the rules read *)
+Record psv_sigs := mkPsvSigs { ps_vin : Z; ps_vouts : list Z; ps_nsem : Z;
+                               ps_ins : list psv_elem; ps_outs : list psv_elem; ps_patch : list psv_elem }.
+
+Definition psv_sigs_of (d : list Z) : psv_sigs :=
+  let sin := u8_at d 32 in let sout := u8_at d 33 in let spatch := u8_at d 34 in
+  let semtab := psv_semtab_offset d in let off := psv_sigelem_offset d in
+  mkPsvSigs (u8_at d 35) [u8_at d 36; u8_at d 37; u8_at d 38; u8_at d 39] (u32_at d (psv_semcount_offset d))
+            (psv_elems d semtab (Z.to_nat sin) off)
+            (psv_elems d semtab (Z.to_nat sout) (off + 16 * sin))
+            (psv_elems d semtab (Z.to_nat spatch) (off + 16 * (sin + sout))).
+
+(* the rules, in the order they are reported; psg = None when the container has no PSG1 part
+   (then PSV0 must not store primitive / patch-constant elements either: counted by sig_check) *)
+Definition sig_rules_list (s : psv_sigs) (isg osg : list sig_elem) (psg : option (list sig_elem)) : list (bool * string) :=
+  [ (forallb (pe_fits (ps_nsem s)) (ps_ins s ++ ps_outs s ++ ps_patch s),
+     "PSV0 signature element outside its register row or semantic index table"%string);
+    (ps_vin s =? max_top (ps_ins s),
+     "PSV0 SigInputVectors is not the highest row used by its allocated input elements"%string);
+    (vectors_ok (ps_vouts s) (ps_outs s),
+     "PSV0 SigOutputVectors is not the highest row used by its allocated output elements"%string);
+    (no_overlap (ps_ins s) && no_overlap (ps_outs s) && no_overlap (ps_patch s),
+     "PSV0 signature elements overlap in a register row"%string);
+    (perm_check (map pe_key (ps_ins s)) (map se_key isg),
+     "PSV0 input elements disagree with ISG1 (register row, component mask, component type or semantic index)"%string);
+    (perm_check (map pe_key (ps_outs s)) (map se_key osg),
+     "PSV0 output elements disagree with OSG1 (register row, component mask, component type or semantic index)"%string);
+    (match psg with Some l => perm_check (map pe_key (ps_patch s)) (map se_key l) | None => true end,
+     "PSV0 primitive / patch-constant elements disagree with PSG1 (register row, component mask, component type or semantic index)"%string) ].
+
+Definition first_failed (l : list (bool * string)) : option string :=
+  fold_right (fun (x : bool * string) (acc : option string) => if fst x then acc else Some (snd x)) None l.
+
+(* PSV0 stores its element tables only when it declares at least one element (EncodePSV0);
+   without them the vector counts must be zero *)
+Definition sig_rules (isg osg : list Z) (psg : option (list Z)) (pv : list Z) : option string :=
+  let s := psv_sigs_of pv in
+  if 0 <? u8_at pv 32 + u8_at pv 33 + u8_at pv 34 then
+    first_failed (sig_rules_list s (sig_part_elems isg) (sig_part_elems osg)
+                                 (match psg with Some d => Some (sig_part_elems d) | None => None end))
+  else if forallb (Z.eqb 0) (ps_vin s :: ps_vouts s) then None
+  else Some ("PSV0 stores no signature elements but declares input / output vectors"%string).
+
 Definition first_err (l : list (option string)) : option string :=
   fold_right (fun x acc => match x with Some e => Some e | None => acc end) None l.
 
@@ -134,6 +278,13 @@ Definition sig_check (ps : list part) (prog_kind : Z) : option psv_info * option
                        then Some ("PSV0 signature element counts differ from ISG1/OSG1/PSG1"%string)
                   else None
                 | None => None
+                end;
+                (* element-level agreement; meaningful once the structural walks above succeeded *)
+                match find_part FourCC_ISG1 ps, find_part FourCC_OSG1 ps with
+                | Some pi, Some po =>
+                  sig_rules (p_data pi) (p_data po)
+                            (match find_part FourCC_PSG1 ps with Some pp => Some (p_data pp) | None => None end) (p_data pv)
+                | _, _ => None
                 end])
   | _, _, _ => (None, Some ("ISG1, OSG1 or PSV0 part missing"%string))
   end.
